@@ -136,13 +136,15 @@ Proof. exact int_roundtrip. Qed.
 Print Assumptions fmt_int_roundtrip.
 
 (* ---- floats.  A float value is the decimal (m, e) Display prints.
-   Full statement (FALSE -- findings F11-float-integral, F11-float-nonfinite):
+   The finite floats are the values a source can denote (since commit d8fda67 the lexer rejects number literals whose
+   value is not finite; `FInf` stays in the model as a value only PL JSON can hold, outside the property's quantifier).
+   Full statement (FALSE -- finding F11-float-integral):
      forall f, flt_wf f = true -> lex_number (fmt_float f) = Some (NFloat f, []) *)
 Theorem fmt_float_roundtrip_refuted : exists f, flt_wf f = true /\ lex_number (fmt_float f) <> Some (NFloat f, []).
 Proof. exact float_refuted. Qed.
 Print Assumptions fmt_float_roundtrip_refuted.
 
-(* 1.0 prints as `1` and lexes as Integer 1;  inf prints as `inf`, which is no number at all *)
+(* 1.0 prints as `1` and lexes as Integer 1;  inf (PL JSON only) prints as `inf`, which is no number at all *)
 Theorem fmt_float_refutation_witnesses :
   flt_wf (FFin 1 0) = true /\ lex_number (fmt_float (FFin 1 0)) = Some (NInt 1, []) /\ lex_number (fmt_float FInf) = None.
 Proof. exact float_roundtrip_refuted_witness. Qed.
